@@ -111,6 +111,9 @@ func c27Differential(c *fx.Ctx, doc []byte, kind string) {
 		}
 	}
 	c.Distinct("nontrivial", string(doc))
+	if len(doc) > 4 && c.Index()%37 == 0 {
+		c.Sample(fmt.Sprintf("%s: %q detected as %s", kind, clipS(string(doc)), f))
+	}
 }
 
 func decodeSpecific(doc []byte) (string, error) {
